@@ -42,4 +42,20 @@ def parseRat (s : String) : Option Rat :=
 
 def showRat (q : Rat) : String := s!"{q.num}/{q.den}"
 
+/-- generic line loop: one input line -> one output line; a leading property token (e.g. "C18") is dropped -/
+partial def loopOn (handle : List String → String) (h out : IO.FS.Stream) : IO Unit := do
+  let line ← h.getLine
+  if line.isEmpty then return ()
+  let ws := words line.trimAscii.toString
+  let ws := match ws with
+    | w :: rest => if w.length == 3 && w.startsWith "C" && (w.drop 1).all Char.isDigit then rest else ws
+    | [] => []
+  out.putStrLn (handle ws)
+  loopOn handle h out
+
+def runLoop (handle : List String → String) : IO Unit := do
+  let out ← IO.getStdout
+  loopOn handle (← IO.getStdin) out
+  out.flush
+
 end Driver
